@@ -30,6 +30,8 @@ def seeded():
             verdict = 'DETECTED (' + shown + ')' if m.group(3) == '1' else \
                 ('harness error (history dependent, not reproducible case by case)' if m.group(3) == '2' else 'not detected')
             det.append(('after strengthening the check: ' if m.group(1) else '') + f"{m.group(2)}: {verdict}")
+        if os.path.exists(d + 'neutralised.txt'):
+            det.append('NEUTRALISED: ' + open(d + 'neutralised.txt').read().strip()[:160])
         needs = str(meta.get('needs_to_manifest', ''))[:300].replace('\n', ' ').replace('|', '/')
         out.append(f"| {name} | {meta.get('property', name[:3])} | {needs} | {demo.group(1) + ' / ' + demo.group(2) if demo else '?'} | {('same 8 failures' if tests and tests[-1] == 'same' else 'DIFFERENT' if tests else 'not run')} | {'; '.join(det)} |")
     return '\n'.join(out)
